@@ -12,6 +12,7 @@ func init() {
 	vhRegister("VH_C19_Events", func(p []int) { VH_C19_Events(p[0]) })
 	vhRegister("VH_C19_MariaSetText", func(p []int) { VH_C19_MariaSetText(p[0]) })
 	vhRegister("VH_C19_MariaAdd", func(p []int) { VH_C19_MariaAdd(p[0]) })
+	vhRegister("VH_C19_MariaFork", func(p []int) { VH_C19_MariaFork(p[0]) })
 	vhRegister("VH_C19_MariaContains", func(p []int) { VH_C19_MariaContains(p[0]) })
 }
 
@@ -265,6 +266,33 @@ func VH_C19_MariaAdd(n int) {
 	for i := 0; i < n; i++ {
 		vhAssert(s[i] == snap[i], "adding to a set must not alter the original")
 	}
+}
+
+// VH_C19_MariaFork: two sets derived from ONE base whose backing array has spare capacity (as
+// after a few successive additions): the second AddGTID must not change the result of the first.
+func VH_C19_MariaFork(n int) {
+	members := vhMariaSet(n, false)
+	base := make(MariadbGTIDSet, n, n+2)
+	copy(base, members)
+	g1 := MariadbGTID{Domain: vhU32(), Server: vhU32(), Sequence: vhU64()}
+	g2 := MariadbGTID{Domain: vhU32(), Server: vhU32(), Sequence: vhU64()}
+	r1, ok := base.AddGTID(g1).(MariadbGTIDSet)
+	vhAssert(ok, "result is a MariaDB set")
+	snap := make([]MariadbGTID, len(r1))
+	copy(snap, r1)
+	had := r1.ContainsGTID(g1)
+	r2, ok2 := base.AddGTID(g2).(MariadbGTIDSet)
+	vhAssert(ok2, "result is a MariaDB set")
+	vhAssert(len(r1) == len(snap), "earlier result keeps its length")
+	for i := range snap {
+		vhAssert(r1[i] == snap[i], "a later AddGTID on the same base does not change an earlier result")
+	}
+	vhAssert(r1.ContainsGTID(g1) == had && had, "the earlier result still contains what was added to it")
+	vhAssert(r2.ContainsGTID(g2), "the later result contains what was added to it")
+	for i := 0; i < n; i++ {
+		vhAssert(base[i] == members[i], "the base is unchanged")
+	}
+	vhCover("maria-fork")
 }
 
 func VH_C19_MariaContains(n int) {
